@@ -106,11 +106,15 @@ theorem handleAE_commit (nd : Node) (t p pt : Nat) (es : List Entry) (lc stage :
     · simp only [h2, if_true]
       split
       · simp
-      · split <;> simp
+      · split
+        · simp
+        · split <;> simp
     · simp only [h2, if_false]
       split
       · simp
-      · split <;> simp
+      · split
+        · simp
+        · split <;> simp
 
 theorem inv5_step (n : Nat) (s s' : Sys) (hreach : Reachable n s) (h : Inv5 n s)
     (hstep : Step n s s') : Inv5 n s' := by
@@ -612,6 +616,170 @@ theorem inv5_step (n : Nat) (s s' : Sys) (hreach : Reachable n s) (h : Inv5 n s)
                 = ((s.ghost.tl u).take lc).take (min lc (prevIdx + es.length)) := by
               rw [List.take_take, Nat.min_eq_left hm2]
             rw [e2, e3, c4]
+  | compact i b =>
+    apply inv5_frame n s _ h
+    · intro j; simp only [apply, setNode_nodes]; split
+      · rename_i hj; subst hj; rfl
+      · rfl
+    · intro j; left; simp only [apply, setNode_nodes]; split
+      · rename_i hj; subst hj; rfl
+      · rfl
+    · intro j; simp only [apply, setNode_nodes]; split
+      · rename_i hj; subst hj; exact Nat.le_refl _
+      · exact Nat.le_refl _
+    · rfl
+    · intro x hx; exact hx
+    · intro l t p pt es lc hm; exact hm
+    · intro k'; simp only [apply, setNode_nodes]; split
+      · rename_i hj; subst hj; intro hc; exact ⟨hc, rfl⟩
+      · intro hc; exact ⟨hc, rfl⟩
+  | takeSnap i k =>
+    apply inv5_frame n s _ h
+    · intro j; simp only [apply, setNode_nodes]; split
+      · rename_i hj; subst hj; rfl
+      · rfl
+    · intro j; left; simp only [apply, setNode_nodes]; split
+      · rename_i hj; subst hj; rfl
+      · rfl
+    · intro j; simp only [apply, setNode_nodes]; split
+      · rename_i hj; subst hj; exact Nat.le_refl _
+      · exact Nat.le_refl _
+    · rfl
+    · intro x hx; exact hx
+    · intro l t p pt es lc hm; exact hm
+    · intro k'; simp only [apply, setNode_nodes]; split
+      · rename_i hj; subst hj; intro hc; exact ⟨hc, rfl⟩
+      · intro hc; exact ⟨hc, rfl⟩
+  | sendIS i =>
+    apply inv5_frame n s _ h
+    · intro j; rfl
+    · intro j; left; rfl
+    · intro j; exact Nat.le_refl _
+    · rfl
+    · intro x hx; exact hx
+    · intro l t p pt es lc hm
+      simp only [apply, List.mem_cons] at hm
+      rcases hm with hm | hm
+      · cases hm
+      · exact hm
+    · intro k hc; exact ⟨hc, rfl⟩
+  | recvIS j ldr t idx iterm =>
+    simp only [enabled] at hen
+    obtain ⟨hj, hm⟩ := hen
+    obtain ⟨hidx1, hmsg⟩ := (inv2b_reachable n s hreach).is_ok ldr t idx iterm hm
+    have hf := handleIS_log (s.nodes j) (s.ghost.tl t) t idx iterm
+    simp only at hf
+    have hlen : idx ≤ (s.ghost.tl t).length := by have := hmsg.len; simpa using this
+    have htl : (apply n s (Label.recvIS j ldr t idx iterm)).ghost.tl = s.ghost.tl := by
+      simp only [apply]; exact ghost_ifa_tl _ _ _
+    have hacksub : ∀ x, x ∈ s.ghost.acks →
+        x ∈ (apply n s (Label.recvIS j ldr t idx iterm)).ghost.acks := by
+      intro x hx; simp only [apply]; rw [ghost_ifa_acks]; split
+      · exact List.mem_cons_of_mem _ hx
+      · exact hx
+    have hnodes : ∀ k, k ≠ j → (apply n s (Label.recvIS j ldr t idx iterm)).nodes k = s.nodes k := by
+      intro k hk; simp only [apply, setNode_nodes, hk, if_false]
+    have hnodej : (apply n s (Label.recvIS j ldr t idx iterm)).nodes j
+        = (handleIS (s.nodes j) (s.ghost.tl t) t idx iterm).1 := by
+      simp only [apply, setNode_nodes, if_true]
+    have hnet : ∀ l' t' p' pt' es' lc', Msg.ae l' t' p' pt' es' lc' ∈
+        (apply n s (Label.recvIS j ldr t idx iterm)).net → Msg.ae l' t' p' pt' es' lc' ∈ s.net := by
+      intro l' t' p' pt' es' lc' hm'
+      simp only [apply] at hm'
+      split at hm'
+      · rcases List.mem_cons.mp hm' with h | h
+        · cases h
+        · exact h
+      · exact hm'
+    have hmono : ∀ u k, Committed n s u k →
+        Committed n (apply n s (Label.recvIS j ldr t idx iterm)) u k := by
+      intro u k hc
+      apply committed_mono n s _ _ hacksub u k hc
+      intro u' k' hk'; rw [htl]; exact ⟨rfl, hk'⟩
+    obtain ⟨d1, d2, d3⟩ := h
+    -- node j's commit bookkeeping after the step
+    have hj_ok : (handleIS (s.nodes j) (s.ghost.tl t) t idx iterm).1.commit
+          ≤ (handleIS (s.nodes j) (s.ghost.tl t) t idx iterm).1.log.length ∧
+        ((handleIS (s.nodes j) (s.ghost.tl t) t idx iterm).1.commit ≠ 0 → ∃ u k,
+          Committed n s u k ∧ (handleIS (s.nodes j) (s.ghost.tl t) t idx iterm).1.commit ≤ k ∧
+          u ≤ (handleIS (s.nodes j) (s.ghost.tl t) t idx iterm).1.term ∧
+          (handleIS (s.nodes j) (s.ghost.tl t) t idx iterm).1.log.take
+              (handleIS (s.nodes j) (s.ghost.tl t) t idx iterm).1.commit
+            = (s.ghost.tl u).take (handleIS (s.nodes j) (s.ghost.tl t) t idx iterm).1.commit) := by
+      rcases hf with ⟨hsame, _⟩ | ⟨_, frole, fterm, fle, fcommit, hl⟩
+      · rw [hsame]; exact d1 j
+      · rw [fcommit, fterm]
+        rcases hl with ⟨_, _, hl⟩ | ⟨hnot, hl⟩
+        · rw [hl]
+          refine ⟨(d1 j).1, ?_⟩
+          intro hne'
+          obtain ⟨u, k, c1, c2, c3, c4⟩ := (d1 j).2 hne'
+          exact ⟨u, k, c1, c2, by omega, c4⟩
+        · rw [hl]
+          by_cases hc0 : (s.nodes j).commit = 0
+          · rw [hc0]; exact ⟨Nat.zero_le _, fun hne' => absurd rfl hne'⟩
+          · obtain ⟨u0, k0, c1, c2, c3, c4⟩ := (d1 j).2 hc0
+            -- the sender's log agrees with the committed prefix
+            have hTk : (s.ghost.tl t).take k0 = (s.ghost.tl u0).take k0 := by
+              rcases Nat.lt_or_ge u0 t with hlt | hge
+              · obtain ⟨l', Q', hq'⟩ := hinv2.tl_elected t hmsg.nonempty
+                exact leader_completeness n s hreach t u0 k0 l' Q' c1 hq' hlt
+              · have : u0 = t := by omega
+                subst this; rfl
+            have hTc : (s.ghost.tl t).take (s.nodes j).commit = (s.nodes j).log.take (s.nodes j).commit := by
+              have := congrArg (List.take (s.nodes j).commit) hTk
+              rw [List.take_take, List.take_take, Nat.min_eq_left c2] at this
+              rw [this, c4]
+            -- the commit index lies below the snapshot index, else the entry would be held
+            have hlt : (s.nodes j).commit < idx := by
+              by_contra hge
+              apply hnot
+              have hle : idx ≤ (s.nodes j).commit := by omega
+              have heq : (s.nodes j).log.take idx = (s.ghost.tl t).take idx := by
+                have := congrArg (List.take idx) hTc
+                rw [List.take_take, List.take_take, Nat.min_eq_left hle] at this
+                exact this.symm
+              have hL : idx ≤ (s.nodes j).log.length := by have := (d1 j).1; omega
+              refine ⟨hL, ?_⟩
+              obtain ⟨k', rfl⟩ : ∃ k', idx = k' + 1 := ⟨idx - 1, by omega⟩
+              rw [termAt_succ _ k' (by omega), hmsg.pterm, termAt_succ _ k' (by omega)]
+              rw [getElem_of_take_eq _ _ (k' + 1) k' heq (by omega) (by omega) (by omega)]
+            refine ⟨by simp only [List.length_take]; omega, ?_⟩
+            intro _
+            refine ⟨u0, k0, c1, c2, by omega, ?_⟩
+            rw [List.take_take, Nat.min_eq_left (by omega), hTc]; exact c4
+    have hrole_ok : (handleIS (s.nodes j) (s.ghost.tl t) t idx iterm).1.role = .leader →
+        (handleIS (s.nodes j) (s.ghost.tl t) t idx iterm).1 = s.nodes j := by
+      intro hl
+      rcases hf with ⟨hsame, _⟩ | ⟨_, frole, _⟩
+      · exact hsame
+      · rw [frole] at hl; cases hl
+    refine ⟨?_, ?_, ?_⟩
+    · intro v
+      by_cases hv : v = j
+      · subst hv
+        rw [hnodej]
+        refine ⟨hj_ok.1, ?_⟩
+        intro hne'
+        obtain ⟨u, k, c1, c2, c3, c4⟩ := hj_ok.2 hne'
+        exact ⟨u, k, hmono u k c1, c2, c3, by rw [htl]; exact c4⟩
+      · rw [hnodes v hv]
+        refine ⟨(d1 v).1, ?_⟩
+        intro hne'
+        obtain ⟨u, k, c1, c2, c3, c4⟩ := (d1 v).2 hne'
+        exact ⟨u, k, hmono u k c1, c2, c3, by rw [htl]; exact c4⟩
+    · intro l' t' p' pt' es' lc' hm' hne'
+      obtain ⟨u, k, c1, c2, c3, c4⟩ := d2 l' t' p' pt' es' lc' (hnet _ _ _ _ _ _ hm') hne'
+      exact ⟨u, k, hmono u k c1, c2, c3, by rw [htl]; exact c4⟩
+    · intro i hi
+      by_cases hij : i = j
+      · subst hij
+        rw [hnodej] at hi ⊢
+        have := hrole_ok hi
+        rw [this] at hi ⊢
+        exact hacksub _ (d3 i hi)
+      · rw [hnodes i hij] at hi ⊢
+        exact hacksub _ (d3 i hi)
   | advanceCommit i k Q =>
     simp only [enabled] at hen
     obtain ⟨hi, hrole, hQ1, hQ2, hQ3, hk1, hk2, hk3, hk4⟩ := hen
